@@ -438,6 +438,17 @@ pub fn runner_options(divan: &crate::Divan) -> &BenchOptions<'static> {
     divan.verif_bench_options()
 }
 
+/// The runner's scalar settings (`action`, `timer`, `sort`, `reverse`,
+/// `color`, `bytes`, `ignored`) as `key=value` tokens.
+pub fn runner_config(divan: &crate::Divan) -> String {
+    divan.verif_config()
+}
+
+/// Whether the runner's filters (builder calls and command line) select `path`.
+pub fn runner_filter_is_match(divan: &crate::Divan, path: &str) -> bool {
+    divan.verif_filter_is_match(path)
+}
+
 pub fn options_counter(options: &BenchOptions, kind: u8) -> Option<u64> {
     options.counters.get(counter_kind(kind)).map(|c| c as u64)
 }
